@@ -1004,7 +1004,11 @@ func bidiOver(cc *grpc.ClientConn, full string, id string, size int, lr *rand.Ra
 		// read the first reply, then go away while the back-end still has
 		// replies and its trailers to deliver
 		err := st.RecvMsg(vschema.NewMsg(vschema.Msg("vf.Chunk")))
+		timedOut := ctx.Err() != nil
 		cancel()
+		if timedOut {
+			return "WEDGED"
+		}
 		if err != nil {
 			return fmt.Sprintf("grpc-go recv 0/%d: %v", k, err)
 		}
